@@ -402,3 +402,23 @@ Definition english_agrees_z (ordinal : bool) (z : Z) : bool :=
   Bool.eqb (opt_text_eqb (go_english src_tables ordinal (dec_text z)) (std_english ordinal z)) (english_ok ordinal (Z.abs_N z)).
 Example english_spread : forallb (english_agrees_z false) spread = true /\ forallb (english_agrees_z true) spread = true.
 Proof. split; vm_compute; reflexivity. Qed.
+
+(* ---- the two sites of ~R without parameters, for all integers: the readings coincide (no taint is added) on every
+   integer but 0 for the Roman forms and on english_ok for the English forms --------------------------------------- *)
+From C15 Require Import RomanProofs.
+Theorem roman_site_coincides_all : forall colon c z, z <> 0%Z -> arg_at c = Some (VInt z) ->
+  dir_radix true src_tables colon true [] c = dir_radix false src_tables colon true [] c.
+Proof.
+  intros colon c z Hz Ha. unfold dir_radix. rewrite Ha.
+  destruct (nargs c <=? c_apos c)%Z; [reflexivity|].
+  rewrite (go_roman_all_integers colon z Hz).
+  destruct (std_roman colon z) as [t|]; unfold pick; cbn [opt_text_eqb]; rewrite ?text_eqb_refl; reflexivity.
+Qed.
+Theorem english_site_coincides : forall colon c z, english_ok colon (Z.abs_N z) = true -> arg_at c = Some (VInt z) ->
+  dir_radix true src_tables colon false [] c = dir_radix false src_tables colon false [] c.
+Proof.
+  intros colon c z Hz Ha. unfold dir_radix. rewrite Ha.
+  destruct (nargs c <=? c_apos c)%Z; [reflexivity|].
+  rewrite (english_loop colon z Hz).
+  destruct (std_english colon z) as [t|]; unfold pick; cbn [opt_text_eqb]; rewrite ?text_eqb_refl; reflexivity.
+Qed.
